@@ -133,11 +133,18 @@ macro_rules! cmp {
             (A::Int16(a), A::Decimal(b)) => binary_op(a.as_ref(), b.as_ref(), |a, b| Decimal::from(*a) $op *b),
             (A::Int32(a), A::Decimal(b)) => binary_op(a.as_ref(), b.as_ref(), |a, b| Decimal::from(*a) $op *b),
             (A::Int64(a), A::Decimal(b)) => binary_op(a.as_ref(), b.as_ref(), |a, b| Decimal::from(*a) $op *b),
-            (A::Float64(a), A::Decimal(b)) => binary_op(a.as_ref(), b.as_ref(), |a, b| Decimal::from_f64_retain(a.0).unwrap() $op *b),
+            // (a double that is infinite, NaN or beyond the range of DECIMAL is compared as a double)
+            (A::Float64(a), A::Decimal(b)) => binary_op(a.as_ref(), b.as_ref(), |a, b| match Decimal::from_f64_retain(a.0) {
+                Some(a) => a $op *b,
+                None => *a $op F64::from(b.to_f64().unwrap_or_default()),
+            }),
             (A::Decimal(a), A::Int16(b)) => binary_op(a.as_ref(), b.as_ref(), |a, b| *a $op Decimal::from(*b)),
             (A::Decimal(a), A::Int32(b)) => binary_op(a.as_ref(), b.as_ref(), |a, b| *a $op Decimal::from(*b)),
             (A::Decimal(a), A::Int64(b)) => binary_op(a.as_ref(), b.as_ref(), |a, b| *a $op Decimal::from(*b)),
-            (A::Decimal(a), A::Float64(b)) => binary_op(a.as_ref(), b.as_ref(), |a, b| *a $op Decimal::from_f64_retain(b.0).unwrap()),
+            (A::Decimal(a), A::Float64(b)) => binary_op(a.as_ref(), b.as_ref(), |a, b| match Decimal::from_f64_retain(b.0) {
+                Some(b) => *a $op b,
+                None => F64::from(a.to_f64().unwrap_or_default()) $op *b,
+            }),
             (A::Decimal(a), A::Decimal(b)) => binary_op(a.as_ref(), b.as_ref(), |a, b| a $op b),
 
             (A::String(a), A::String(b)) => binary_op(a.as_ref(), b.as_ref(), |a, b| a $op b),
@@ -523,9 +530,11 @@ impl ArrayImpl {
                 })?),
                 Type::Float64 => Self::Float64(a.clone()),
                 Type::String => Self::new_string(StringArray::from_iter_display(a.iter())),
-                Type::Decimal(_, _) => Self::new_decimal(unary_op(a.as_ref(), |&f| {
-                    Decimal::from_f64_retain(f.0).unwrap()
-                })),
+                Type::Decimal(_, _) => Self::new_decimal(try_unary_op(a.as_ref(), |&f| {
+                    // (infinite, NaN or beyond the range of DECIMAL)
+                    Decimal::from_f64_retain(f.0)
+                        .ok_or(ConvertError::ToDecimalError(DataValue::Float64(f)))
+                })?),
                 Type::Null
                 | Type::Date
                 | Type::Timestamp
